@@ -39,6 +39,14 @@ class Prop(Bip32Prop):
             st = self.start_prv(rng, self.rand_scalar(rng, "rand"))
             path = [rng.randrange(0, H)]
             cases.append({"kind": "PubPriv", "start": st, "path": path, "stub": self.stub_for_last_step(st, path, rng, ki=kstar), "note": "ki=%d" % kstar})
+        # the same child requested again after other children of the same node object (out of order, repeated), and via generate_children
+        for hist, tgt in ([[7, 2], 2], [[9, 5, 9], 5], [[3, H - 1, 0, 3], 0], [[H, 4, 1], 1], [[5], 5]):
+            st = self.start_prv(rng, self.rand_scalar(rng, "rand"), depth=rng.choice([0, 2]))
+            cases.append({"kind": "PubPriv", "start": st, "path": [tgt], "via": {"history": hist}, "note": "after ckd history %r" % (hist,)})
+            cases.append({"kind": "PubPriv", "start": st, "path": [1, tgt], "via": {"history": hist}, "note": "after ckd history %r, depth+1" % (hist,)})
+        for iv, tgt in ([[0, 6], 4], [[H - 3, H], H - 1], [[5, 0, -1], 2], [[0, 9, 3], 6]):
+            st = self.start_prv(rng, self.rand_scalar(rng, "rand"))
+            cases.append({"kind": "PubPriv", "start": st, "path": [tgt], "via": {"gen": iv}, "note": "via generate_children%r" % (iv,)})
         # refusal of hardened indexes from public-only data
         for i in [H, H + 1, 2 ** 32 - 1, rng.randrange(H, 2 ** 32)]:
             k = self.rand_scalar(rng, "rand")
